@@ -401,9 +401,13 @@ impl Parser {
     }
 
     fn prepend_with_import_name(&self, tokens: &mut Vec<Token>, prepend: Vec<char>) {
+        // import name of a nested import always gets prepended, even if it's spelled like a built-in
+        let mut previous_was_import = false;
         for token in tokens.iter_mut() {
+            let is_import_name = previous_was_import;
+            previous_was_import = token.kind == TokenKind::Import;
             if token.kind == TokenKind::Identifier {
-                if self.built_in_functions.is_built_in(&token.lexeme) || self.is_platform_constant(&token.lexeme) {
+                if !is_import_name && (self.built_in_functions.is_built_in(&token.lexeme) || self.is_platform_constant(&token.lexeme)) {
                     continue;
                 }
                 let mut i = 0;
